@@ -110,6 +110,17 @@ def t_edit(E):
             also=["C15"])
     E.prove("C15.Dimap.edit.unchanged_args_unchanged_inner_retval_gives_nochange", E.Implies(
         E.And(T.d_nc_all(ad.t), T.d_nc_all(T.edit_rd(g.t, k.t, old_inner.t, E.I.to_u(req), inner_ad.t))), T.d_nc_all(rd.t)))
+    # C06 round trip: the real edit on its own output with its own backward request and (honestly tagged) argdiffs leading back
+    ad2 = E.opaque("argdiffs_back", "tuple")
+    E.assume(E.And(T.d_is_tree(ad2.t), T.d_primal(ad2.t) == old_args.t))
+    INCR.link(ad2.t)
+    E.assume(INCR.hu(primals.t, T.d_primal(ad2.t), T.d_tangent(ad2.t)))
+    st2, back = E.attempt(lambda: E.method(dm, "edit", key(E, "key2"), new, bwd, ad2))
+    E.require("C06.Dimap.edit.backward_request_can_be_applied", st2 == "ok")
+    new2, w2 = back[0], back[1]
+    E.prove("C06.Dimap.edit.bwd_restores_the_trace_and_negates_the_weight", E.And(
+        E.eq(E.method(new2, "get_choices"), E.method(old, "get_choices")), E.eq(E.method(new2, "get_score"), E.method(old, "get_score")),
+        E.eq(E.method(new2, "get_args"), old_args), E.eq(E.method(new2, "get_retval"), old_ret), E.eq(w2, E.I.unaryop("USub", w))))
     E.refutable("dimap.edit", T.d_nc_all(rd.t))
 
 
